@@ -154,6 +154,32 @@ func c03Scenarios(tier string) []*Scenario {
 			map[string]*ProcScript{"d": daemon, "a": daemon}, 1,
 			[]APICall{{Op: "start", Name: "a", When: dUp}, {Op: "shutdown"}})
 	}
+	// 17. a daemon whose launcher is still running (reported Launching) when the shutdown arrives: the launcher
+	// is a command like any other and has to be stopped; nothing of it may survive the shutdown
+	for _, stopCmd := range []bool{false, true} {
+		for _, ordered := range []bool{false, true} {
+			id := "daemon-launching"
+			lines := []string{"is_daemon: true"}
+			if stopCmd {
+				id += "-stopcmd"
+				lines = append(lines, "shutdown:", "  command: \"stop-a\"", "  timeout_seconds: 2")
+			}
+			if ordered {
+				id += "-ordered"
+			}
+			launchingA := func(w *World) bool { return w.lastStat["a"] == "Launching" }
+			sc := add(id, "daemon a is still Launching (its launcher runs until it is signalled) when the shutdown arrives; b runs next to it",
+				projectYAML(nil, PC{Name: "a", Lines: lines}, PC{Name: "b"}),
+				map[string]*ProcScript{"a": daemon, "b": daemon}, 2, []APICall{{Op: "shutdown", When: launchingA}})
+			if stopCmd {
+				// the stop command does its job: it ends the launcher (one that returns without stopping anything
+				// leaves process-compose waiting, which is what a stop command is documented to replace)
+				sc.Aux = map[string][]string{"stop-a": {"ok"}}
+				sc.AuxEffect = map[string]string{"stop-a": "kill:a"}
+			}
+			sc.Ordered = ordered
+		}
+	}
 	if tier == "thorough" {
 		add("three", "three independent processes, one restarting", projectYAML(nil, PC{Name: "a"}, PC{Name: "b", Restart: "always"}, PC{Name: "c", Deps: map[string]string{"a": "process_started"}}),
 			map[string]*ProcScript{"a": daemon, "b": {Launches: [][]Action{{Exit(0)}, {}}}, "c": daemon}, 2, shut)
